@@ -163,6 +163,19 @@ func Assert(c bool, label string) {
 	}
 }
 
+// AssertBytesEqual asserts a == b byte for byte (under the engine: refuted with
+// a fresh symbolic index, so no bound on the length is needed).
+func AssertBytesEqual(a, b []byte, label string) {
+	if len(a) != len(b) {
+		Assert(false, label)
+	}
+	for i := range a {
+		if a[i] != b[i] {
+			Assert(false, label)
+		}
+	}
+}
+
 // Cover marks a reachability witness.
 func Cover(label string) {}
 
